@@ -687,11 +687,11 @@ def _merge(src, pyi):
   return merge_pyi.merge_sources(py=src, pyi=pyi)
 
 
-def check_pair(src, pyi):
-  """Returns (violations, info, merged text or None)."""
+def check_pair(src, pyi, out=None):
+  """Returns (violations, info, merged text or None).  `out`: a merge result obtained elsewhere (file API)."""
   compile(src, "<input>", "exec")
   try:
-    out = _merge(src, pyi)
+    out = _merge(src, pyi) if out is None else out
   except Exception as e:  # pylint: disable=broad-except
     return [V("MERGE-ERROR", (type(e).__name__,), "merge_sources raised %s: %s" % (type(e).__name__, str(e)[:160]))], {}, None
   try:
@@ -713,6 +713,88 @@ def check_pair(src, pyi):
       seen.add(v)
       res.append(v)
   return res, info, out
+
+
+# -------------------------------------------------------------- the file-level entry point
+#
+# merge_files / merge-pyi -i read and rewrite a file on disk.  Every program of FILE_PROGS is written
+# in every encoding of FILE_ENCODINGS, merged in place, and what CPython then reads from the file
+# (decoding it the way the compiler does: BOM / coding cookie) is judged by the same oracle.
+
+FILE_PROGS = [
+    "def f(a):\n  return a\nx = [1]\n",
+    "s = 'gr\u00fc\u00dfe \u2192 \u00e9'\ndef f(a, b='\u00e4'):\n  return a\n",
+    "class K:\n  \u00e9tat = 'caf\u00e9'\n  def m(self, p):\n    return p\ny = K().m(1)\n",
+]
+FILE_STUB = ["def f(a: int) -> int: ...\nx: list[int]\n", "s: str\ndef f(a: int, b: str = ...) -> int: ...\n",
+             "class K:\n    \u00e9tat: str\n    def m(self, p: int) -> int: ...\ny: int\n"]
+# (name, prefix bytes, cookie line, codec used to encode the body)
+FILE_ENCODINGS = [
+    ("utf-8", b"", "", "utf-8"),
+    ("utf-8-cookie", b"", "# -*- coding: utf-8 -*-\n", "utf-8"),
+    ("utf-8-bom", b"\xef\xbb\xbf", "", "utf-8"),
+    ("latin-1-cookie", b"", "# -*- coding: latin-1 -*-\n", "latin-1"),
+    ("utf-8-bytes-under-latin-1-cookie", b"", "# -*- coding: latin-1 -*-\n", "utf-8"),
+]
+
+
+def _decode_like_cpython(data):
+  import io as pyio
+  import tokenize
+  enc, _ = tokenize.detect_encoding(pyio.BytesIO(data).readline)
+  text = data.decode(enc)
+  return text[1:] if text.startswith("\ufeff") else text
+
+
+def check_files():
+  """Returns (violations, number of files merged)."""
+  import os
+  import shutil
+  import tempfile
+  boot.load()
+  from pytype.tools.merge_pyi import merge_pyi
+  bad, n = [], 0
+  d = tempfile.mkdtemp(prefix="vk_c20_files_")
+  try:
+    for k, (body, pyi) in enumerate(zip(FILE_PROGS, FILE_STUB)):
+      for name, prefix, cookie, codec in FILE_ENCODINGS:
+        try:
+          data = prefix + (cookie + body).encode(codec)
+        except UnicodeEncodeError:
+          continue   # this text has no representation in that codec
+        py, pyip = os.path.join(d, "m%d.py" % k), os.path.join(d, "m%d.pyi" % k)
+        with open(py, "wb") as f:
+          f.write(data)
+        with open(pyip, "w", encoding="utf-8") as f:
+          f.write(pyi)
+        try:
+          before = _decode_like_cpython(data)
+          compile(data, py, "exec")
+        except (SyntaxError, UnicodeDecodeError, ValueError):
+          continue   # CPython itself cannot read this file
+        n += 1
+        try:
+          merge_pyi.merge_files(py_path=py, pyi_path=pyip, mode=merge_pyi.Mode.OVERWRITE, backup=None)
+        except Exception as e:  # pylint: disable=broad-except
+          with open(py, "rb") as f:
+            if f.read() == data:
+              continue   # refused, nothing produced
+          bad.append(V("FILE", (name, "partial"), "merge_files raised %s and left a changed file (%s, program %d)" % (type(e).__name__, name, k)))
+          continue
+        with open(py, "rb") as f:
+          after_bytes = f.read()
+        try:
+          compile(after_bytes, py, "exec")
+          after = _decode_like_cpython(after_bytes)
+        except (SyntaxError, UnicodeDecodeError, ValueError) as e:
+          bad.append(V("FILE", (name, "unreadable"), "after merge_files the %s file (program %d) no longer compiles: %s" % (name, k, str(e)[:100])))
+          continue
+        vs, _, _ = check_pair(before, pyi, out=after)
+        for v in vs:
+          bad.append(V("FILE", (name,) + tuple(v[1][:1]), "merge_files on a %s file (program %d): %s" % (name, k, v[2])))
+  finally:
+    shutil.rmtree(d, ignore_errors=True)
+  return bad, n
 
 
 # -------------------------------------------------------------- minimiser
@@ -1159,6 +1241,16 @@ def _min_work(item):
   return {"sig": sig, "origin": "inferred-stub", "src": s, "pyi_seen": p}, msg, out
 
 
+def _files_job(_):
+  bad, n = check_files()
+  seen, out = set(), []
+  for v in bad:
+    if v.sig not in seen:
+      seen.add(v.sig)
+      out.append((v.sig, v[2]))
+  return out, n
+
+
 def _key(case):
   d = {"sig": case["sig"], "src": case["src"], "pyi": case.get("pyi", "<inferred>")}
   if case.get("history"):
@@ -1172,6 +1264,12 @@ def run(rep, tier, seed):
   items = []
   nstub = 0
   maxslots = 0
+  # depth-1 programs again with typing imports the author wrote but does not use
+  extra = []
+  for tag, spec, src in progs:
+    if tag == "full" and len(spec) == 1 and "import" not in src and "Any" not in src:
+      extra.append((tag, [], "from typing import Any, Callable, Optional  # re-exported\nimport typing as t\n" + src))
+  progs = progs + (extra if tier != "quick" else extra[::3])
   for tag, spec, src in progs:
     compile(src, "<program>", "exec")
     items.append(("inf", src, spec, 0, None))
@@ -1206,6 +1304,12 @@ def run(rep, tier, seed):
       for sig, c in cands.items():
         if sig not in best or c < best[sig]:
           best[sig] = c
+  fbad, nfiles = vrun.isolated(_files_job, None)
+  for sig, msg in fbad:
+    case = {"sig": sig, "origin": "file-api", "src": "<FILE_PROGS x FILE_ENCODINGS>", "pyi": "<FILE_STUB>"}
+    rep.violation(_key(case), "[%s] %s" % (sig, msg), case)
+  tot["pairs"] = tot.get("pairs", 0) + nfiles
+  rep.outcome("file-api:merged-in-place", nfiles)
   rep.evaluations = tot.get("pairs", 0)
   rep.nontrivial_extra = tot.get("nontrivial", 0)
   for k, v in sorted(tot.items()):
@@ -1259,6 +1363,8 @@ def run(rep, tier, seed):
 
 def replay(case):
   boot.load()
+  if case.get("origin") == "file-api":
+    return [{"key": _key(case), "summary": m} for sig, m in _files_job(None)[0] if sig == case["sig"]][:1]
   src = case["src"]
   pyi = case["pyi"] if "pyi" in case else _infer(src, False)
   for hs, hp in case.get("history") or ():
